@@ -417,3 +417,50 @@ Theorem pusize_irrelevant_beyond_word : forall md p f pu pu' r,
   squarefree md f p pu = squarefree md f p pu' /\
   factorize_mod_p md f p pu r = factorize_mod_p md f p pu' r.
 Proof. exact pusize_irrelevant_bigp. Qed.
+
+(** ** Fifth wave: for p = 2 the fuel supplied by the model always suffices (Refine/W5Trace.v, W5TraceLoop.v,
+    W5C08Lists.v). p = 2 draws no random number: the equal-degree stage is the deterministic trace-map loop
+    t = x, x^3, x^5, ... of [final_split_2]. *)
+From RNT.Refine Require Import W5C08Lists.
+
+(** [P] [final_split_2_terminates]: on a reduced input that is square-free modulo 2, of degree >= 1, all of whose
+    irreducible factors modulo 2 have degree d >= 1, [final_split _ 2 d] returns: the [length + 2] attempts of
+    the trace-map loop and the recursion depth [length + 1] supplied by the model suffice. (Some odd m < deg f has
+    gcd(f, x^m + x^2m + ... + x^(2^(d-1) m)) a proper divisor: otherwise the trace F_2[x]/(f) -> F_2^k would take
+    only the values (0,..,0) and (1,..,1) on the basis x^i, hence everywhere; but it is onto, and k >= 2.) *)
+Theorem final_split_2_terminates : forall poly d r,
+  canonical poly -> in_range 2 poly -> (2 <= length poly)%nat -> squarefree_mod 2 poly ->
+  1 <= d -> factors_degree 2 poly d ->
+  exists out, final_split poly 2 d r = Done (out, r).
+Proof. exact final_split_2_terminates_all. Qed.
+
+(** x^6 + x^5 + ... + 1 = (x^3 + x + 1)(x^3 + x^2 + 1) modulo 2: square-free (1 f + (x + x^2) f' = 1), the
+    distinct-degree stage returns it whole with d = 3, the trace-map loop splits it. *)
+Example final_split_2_terminates_nonvacuous :
+  let f := [1; 1; 1; 1; 1; 1; 1] in
+  canonical f /\ in_range 2 f /\ squarefree_mod 2 f /\ factors_degree 2 f 3 /\
+  final_split f 2 3 (rng_of []) = Done ([[1; 1; 0; 1]; [1; 0; 1; 1]], rng_of []).
+Proof.
+  assert (S : squarefree_mod 2 [1; 1; 1; 1; 1; 1; 1]).
+  { apply (@squarefree_mod_bezout_all 2 [1; 1; 1; 1; 1; 1; 1] [1] [0; 1; 1] prime_2). vm_compute. reflexivity. }
+  assert (R : in_range 2 [1; 1; 1; 1; 1; 1; 1]) by (repeat constructor; lia).
+  split; [reflexivity|]. split; [exact R|]. split; [exact S|]. split; [|vm_compute; reflexivity].
+  assert (D : degree [1; 1; 1; 1; 1; 1; 1] 2 = Done [([1; 1; 1; 1; 1; 1; 1], 3)]) by (vm_compute; reflexivity).
+  pose proof (@degree_separates 2 _ _ prime_2 (eq_refl : canonical [1; 1; 1; 1; 1; 1; 1]) R
+                ltac:(discriminate) S D) as F.
+  apply Forall_inv in F. exact (proj2 F).
+Qed.
+
+(** [P] [factorize_mod_2_terminates]: for p = 2, every f with f mod 2 <> 0, at most 2^64 coefficients and
+    pusize = 2 (or at most 2 coefficients), both profiles, every draw stream: [factorize_mod_p] RETURNS (strengthens
+    [factorize_mod_p_no_panic] for p = 2: the OutOfFuel alternative does not occur). *)
+Theorem factorize_mod_2_terminates : forall md f f1 pusize r,
+  Z.of_nat (length f) <= two64 ->
+  pusize = 2 \/ Z.of_nat (length f) <= 2 ->
+  poly_mod f 2 = Done f1 -> f1 <> [] ->
+  exists out r', factorize_mod_p md f 2 pusize r = Done (out, r').
+Proof. exact factorize_mod_2_terminates_all. Qed.
+Example factorize_mod_2_terminates_nonvacuous :
+  Z.of_nat (length [3; -1; 1; 5; 1; 7; 1]) <= two64 /\ poly_mod [3; -1; 1; 5; 1; 7; 1] 2 = Done [1; 1; 1; 1; 1; 1; 1] /\
+  factorize_mod_p Checked [3; -1; 1; 5; 1; 7; 1] 2 2 (rng_of []) = Done ([([1; 1; 0; 1], 1); ([1; 0; 1; 1], 1)], rng_of []).
+Proof. split; [vm_compute; discriminate|]. split; vm_compute; reflexivity. Qed.
